@@ -4,7 +4,7 @@ using namespace vf;
 
 namespace {
 
-void one_case(Ctx &c) {
+void case_impl(Ctx &c, bool late) {
   Sim s(c); World w(s);
   s.nodeid = (uint8_t)(1 + c.t.below(127));
   static const uint32_t FREQ[4] = {1000, 100, 10000, 1000000};
@@ -24,7 +24,7 @@ void one_case(Ctx &c) {
   add_tpdo(w, 0, 0x40000180u + s.nodeid, ttype, 0, 0, {MAPENT(0x2101, 1, 8)}, 1);
   TObj &ro = w.add_int(0x2100, 1, 1, false, false, true, true, 0, true, false);
   add_rpdo(w, 0, 0x200u + s.nodeid, 1, {MAPENT(0x2100, 1, 8)}, 1);     // synchronous RPDO
-  w.finish();
+  w.finish(!late);      // mode late-start: CONodeInit only - the application starts the node some ticks later
   TObj *robj = w.lookup(ro.idx, ro.sub);
   SdoClient cl(s, w.req[0], w.rsp[0]);
   VLOG(c, "node %u, %u Hz (resolution %u us), 1005h=%08X 1006h=%u us, sync TPDO type %u", s.nodeid, s.freq, res_us, mcob, mcyc, ttype);
@@ -41,6 +41,11 @@ void one_case(Ctx &c) {
     CHECK(c, got == e, e ? "sync-period" : "sync-only-when-due", "tick %ld: %d SYNC frame(s) produced, expected %d (period %ld ticks, next due %ld)", T, got, e, per, due);
     produced += got; s.clear_tx();
   };
+  if (late) {   // ticks in INITIALISATION: the producer's time base runs, but no state before boot-up allows SYNC
+    mode = 1; int k = 1 + (int)c.t.below(40); VLOG(c, "%d ticks before CONodeStart", k);
+    for (int i = 0; i < k; i++) tick();
+    s.clear_tx(); s.start(); s.clear_tx(); mode = 2; c.cls("ticks-before-the-node-was-started");
+  }
   int steps = 0;
   while (!c.t.exhausted() && steps < 200) {
     steps++; c.ops++;
@@ -118,13 +123,17 @@ void one_case(Ctx &c) {
   char f[32]; snprintf(f, sizeof f, "freq-%u", s.freq); c.cls(f);
 }
 
+void one_case(Ctx &c) { case_impl(c, false); }
+void late_case(Ctx &c) { case_impl(c, true); }
+
 Registrar reg(Prop{
     "C16",
     "Cases: node id 1..127, timer frequency in {100, 1000, 10000, 1000000} Hz, initial 1005h (CAN-ID 80h/81h/100h, bit 30 set or not) and 1006h (0, below the resolution, 1..6 whole ticks); one synchronous TPDO of type 1..3 and one synchronous RPDO as witnesses; "
     "histories of up to 200 ops: ticks and jumps onto the next due SYNC, SYNC and near-miss frames (DLC 0/1), SDO writes to 1005h (CAN-ID change while producing, start/stop) and 1006h (valid, 0, below the resolution), NMT commands, synchronous RPDO receptions, local writes. "
     "Oracle: reference model: a frame is SYNC iff id == CAN-ID of 1005h and the mode is PRE-OP/OP (else handed to the application); the producer emits a zero-length frame exactly every period from (re)activation, only in PRE-OP/OP; write verdicts incl. 0609 0030h with the previous value kept and independent of earlier refused writes; every SYNC advances the synchronous TPDO and applies the buffered RPDO exactly once. "
     "Non-trivial: >= 2 SYNCs produced and >= 1 accepted + >= 1 refused write. Distinct = distinct decoded choice sequence.",
-    {Mode{"random", one_case, false, 1500000, 20000000, 0, 0, 260, 500}},
+    {Mode{"random", one_case, false, 1200000, 16000000, 0, 0, 260, 500},
+     Mode{"late-start", late_case, false, 300000, 4000000, 0, 0, 260, 500}},
     {"periods are whole numbers of ticks and of 100 us", "1006h := 0 while producing may be refused (value kept) or accepted (production stops)", "extended identifiers (bit 29) in 1005h are not generated"}});
 
 }  // namespace
